@@ -18,8 +18,8 @@ static std::vector<float> bunch_data(unsigned n, unsigned b, int variant) {
 
 static std::vector<float> all_data_of(const std::vector<std::vector<float>>& data, unsigned nb) { std::vector<float> all; for (unsigned b = 0; b < nb; b++) all.insert(all.end(), data[b].begin(), data[b].end()); return all; }
 
-enum Kind { KICKY, KICKX, RFLIN, RFSIN, DRIFT, FP3, FP4, IDENT, WAKE, NKIND };
-static const char* KN[] = {"KickMap.y", "KickMap.x", "RFKickMap.linear", "RFKickMap.sin", "DriftMap", "FokkerPlanck.3", "FokkerPlanck.4", "Identity", "WakePotentialMap"};
+enum Kind { KICKY, KICKX, RFLIN, RFSIN, DRIFT, FP3, FP4, IDENT, WAKE, DYNLIN, DYNSIN, NKIND };
+static const char* KN[] = {"KickMap.y", "KickMap.x", "RFKickMap.linear", "RFKickMap.sin", "DriftMap", "FokkerPlanck.3", "FokkerPlanck.4", "Identity", "WakePotentialMap", "DynamicRF.linear", "DynamicRF.sin"};
 
 static int FPT = 3;   // Fokker-Planck variant (0 none, 1 damping only, 2 diffusion only, 3 full) for the FP kinds
 struct Built { std::shared_ptr<SourceMap> m; psptr in, out; std::shared_ptr<ElectricField> f; std::shared_ptr<Impedance> z; };
@@ -52,6 +52,14 @@ static Built build(int kind, unsigned n, unsigned nb, unsigned it, int var, cons
                                                 var == 2 ? 1e-2 : 1e-3, kind == FP3 ? FokkerPlanckMap::DerivationType::two_sided : FokkerPlanckMap::DerivationType::cubic, nullptr);
         break;
     case IDENT: B.m = std::make_shared<Identity>(B.in, B.out, nullptr); break;
+    case DYNLIN: case DYNSIN: {   // phase modulation only (deterministic queue): second entry in force after two applies
+        const double frf = 5e8, bl2phase = 1e-3 / physcons::c * frf * 2 * M_PI, dE = B.in->getDelta(1) * 6.1e5, revpart = 0.01;
+        const double Veff = std::tan(angle) * dE / (B.in->getDelta(0) * revpart * bl2phase), V0 = 0.1 * Veff, VRF = std::sqrt(Veff * Veff + V0 * V0);
+        std::shared_ptr<DynamicRFKickMap> d;
+        if (kind == DYNLIN) d = std::make_shared<DynamicRFKickMap>(B.in, B.out, n, n, angle, revpart, frf, 0.f, 0.f, 0.02f, 0.13, 3, itt, false, nullptr);
+        else d = std::make_shared<DynamicRFKickMap>(B.in, B.out, n, n, revpart, VRF, frf, V0, 0.f, 0.f, 0.02f, 0.13, 3, itt, false, nullptr);
+        d->apply();   // entry 0 (zero modulation); the caller's apply() runs with entry 1
+        B.m = d; break; }
     case WAKE: {
         B.z = std::make_shared<ConstImpedance>(N, 1e12f, impedance_t(200.f, var == 1 ? 90.f : 0.f));
         B.f = std::make_shared<ElectricField>(B.in, B.z, buckets, spacing, nullptr, 9e6, 0.01f, 3e-3, 1.3e9, 4.7e-4, 4e-8);
